@@ -294,10 +294,8 @@ impl super::MainState {
                                 false
                             };
 
-                            user_state.authenticated = good;
                             (Some(good), registered)
                         } else {
-                            user_state.authenticated = true;
                             (Some(true), registered)
                         }
                     } else {
@@ -319,15 +317,17 @@ impl super::MainState {
                     let user_state = &mut conn_state.user_state;
                     user_state.registered = registered;
                     let mut state = self.state.write().await;
-                    let user = User::new(
-                        &self.config,
-                        user_state,
-                        conn_state.sender.take().unwrap(),
-                        conn_state.quit_sender.take().unwrap(),
-                    );
-                    let umode_str = user.modes.to_string();
                     if !state.users.contains_key(&user_nick) {
+                        let user = User::new(
+                            &self.config,
+                            user_state,
+                            conn_state.sender.take().unwrap(),
+                            conn_state.quit_sender.take().unwrap(),
+                        );
+                        let umode_str = user.modes.to_string();
                         state.add_user(&user_nick, user);
+                        // connection is authenticated only if its user has been really added.
+                        user_state.authenticated = true;
                         umode_str
                     } else {
                         // if nick already used
